@@ -10,7 +10,7 @@ Import ListNotations.
 (* ---------- everything but values, notes and the overflow flag ---------- *)
 Definition frame_ob (a b : ostate) : Prop :=
   o_alive a = o_alive b /\ o_info a = o_info b /\ o_locked a = o_locked b /\
-  o_att_s a = o_att_s b /\ o_att_i a = o_att_i b.
+  o_att_s a = o_att_s b /\ o_att_i a = o_att_i b /\ length (o_vals a) = length (o_vals b).
 Definition same_frame (s t : state) : Prop :=
   length (objs s) = length (objs t) /\ forall o, frame_ob (get_obj s o) (get_obj t o).
 
@@ -21,7 +21,7 @@ Proof. split; [reflexivity|intros; apply frame_ob_refl]. Qed.
 Lemma same_frame_trans s t u : same_frame s t -> same_frame t u -> same_frame s u.
 Proof.
   intros [L1 F1] [L2 F2]. split; [congruence|]. intros o.
-  destruct (F1 o) as (a1 & a2 & a3 & a4 & a5). destruct (F2 o) as (b1 & b2 & b3 & b4 & b5).
+  destruct (F1 o) as (a1 & a2 & a3 & a4 & a5 & a6). destruct (F2 o) as (b1 & b2 & b3 & b4 & b5 & b6).
   repeat split; congruence.
 Qed.
 
@@ -57,7 +57,7 @@ Proof.
 Qed.
 
 Lemma set_val_frame st o n v : same_frame st (set_val st o n v).
-Proof. unfold set_val. apply upd_obj_frame. intros ob. repeat split. Qed.
+Proof. unfold set_val. apply upd_obj_frame. intros ob. repeat split. cbn. symmetry. apply update_length. Qed.
 Lemma add_note_frame st o n : same_frame st (add_note st o n).
 Proof. split; [reflexivity|intros; apply frame_ob_refl]. Qed.
 
@@ -88,7 +88,7 @@ Proof.
   - destruct (Nat.lt_ge_cases o (length (objs st))) as [Hlt|Hge].
     + unfold unlock. rewrite get_obj_upd_same by lia.
       specialize (F o). unfold lock in F. rewrite get_obj_upd_same in F by exact Hlt.
-      destruct F as (a1 & a2 & a3 & a4 & a5). cbn in *.
+      destruct F as (a1 & a2 & a3 & a4 & a5 & a6). cbn in *.
       repeat split; cbn; try assumption.
       rewrite <- a3. symmetry. apply del1_add1. exact Hl.
     + specialize (F o). unfold lock, unlock in *.
@@ -104,7 +104,7 @@ Definition phi (ob : ostate) : nat :=
 Definition Phi (st : state) : nat := list_sum (map phi (objs st)).
 
 Lemma phi_frame a b : frame_ob a b -> phi a = phi b.
-Proof. intros (_ & _ & H3 & H4 & H5). unfold phi. rewrite H3, H4, H5. reflexivity. Qed.
+Proof. intros (_ & _ & H3 & H4 & H5 & _). unfold phi. rewrite H3, H4, H5. reflexivity. Qed.
 
 Lemma Phi_frame s t : same_frame s t -> Phi s = Phi t.
 Proof.
